@@ -4,7 +4,7 @@ and report every test of BASELINE.json's stable_pass list that does not pass now
 import json, subprocess, sys, os
 env = dict(os.environ, GOFLAGS="-mod=mod", GOPROXY="off", GOSUMDB="off", GOTOOLCHAIN="local")
 base = json.load(open("/root/.vp/BASELINE.json"))
-p = subprocess.run(["go", "test", "-json", "-vet=off", "-count=1", "-timeout", "25m", "./..."], cwd="/repo", env=env,
+p = subprocess.run(["go", "test", "-json", "-vet=off", "-count=1", "-timeout", "25m", "./..."], cwd=os.environ.get("SUITE_REPO", "/repo"), env=env,
                    capture_output=True, text=True)
 res = {}
 for line in p.stdout.splitlines():
